@@ -205,6 +205,8 @@ def ref_rate(kind, beta, kappa, tau, limit_sigma, gamma, teams, rankvals):
             mid = sg(delta[i])
             if 1 - share * delta[i] <= kappa:
                 info["floor"] += 1
+                if 1 - share * delta[i] > 0:
+                    info["floor_window"] = info.get("floor_window", 0) + 1
             lo, hi = min(a, b), max(a, b)
             prior = M(teams[i][j][1])
             if limit_sigma:
